@@ -92,6 +92,7 @@ func c06(c *Ctx) {
 	r.Floor("C06.R2", 3)
 	r.Floor("C06.R3", 4)
 	r.Floor("C06.R4", 3)
+	r.Floor("C06.R5", 3)
 	// ---- R1
 	checkIdentityKeys(p, r, "C06.R1", func(f *ssa.Function) bool { return f.Name() == "Struct" }, false)
 	// ---- R2 method caches keyed by the exact name parameter
@@ -123,6 +124,60 @@ func c06(c *Ctx) {
 			_, isP := resolveLocal(key).(*ssa.Parameter)
 			r.Check(isP, "C06.R2", "method cache key in "+shortName(f)+" "+kindOf(i), p.Pos(posOf(i)), "keyed by the name parameter itself",
 				"the per-type method cache is keyed by a derived form of the method name: methods whose names differ only in that derivation (case, prefix) share a mocker")
+		})
+	}
+	// ---- R5 one mocker state per method name: what is filed in a per-name cache is built from a constructor call made
+	// for this name, never from the shared (embedded) mocker of the type
+	var freshFrom func(v ssa.Value, depth int) bool
+	freshFrom = func(v ssa.Value, depth int) bool {
+		if depth > 5 {
+			return false
+		}
+		switch x := resolveLocal(v).(type) {
+		case *ssa.MakeInterface:
+			return freshFrom(x.X, depth+1)
+		case *ssa.ChangeInterface:
+			return freshFrom(x.X, depth+1)
+		case *ssa.TypeAssert:
+			return freshFrom(x.X, depth+1)
+		case *ssa.Call:
+			cal := staticCallee(x.Common())
+			if cal == nil || relPkg(cal) != "" {
+				return false
+			}
+			if cal.Signature.Recv() == nil {
+				// a constructor of the root package
+				return cal.Object() != nil && cal.Object().Exported() && strings.HasPrefix(cal.Name(), "New")
+			}
+			if len(x.Call.Args) == 0 {
+				return false
+			}
+			return freshFrom(x.Call.Args[0], depth+1)
+		}
+		return false
+	}
+	for _, f := range p.FuncsIn("") {
+		if f.Signature.Recv() == nil || f.Object() == nil || !f.Object().Exported() {
+			continue
+		}
+		rt := f.Signature.Recv().Type()
+		if pt, ok := rt.(*types.Pointer); ok {
+			rt = pt.Elem()
+		}
+		nt, ok := rt.(*types.Named)
+		if !ok || !strings.HasPrefix(nt.Obj().Name(), "Cached") {
+			continue
+		}
+		eachInstr(f, func(i ssa.Instruction) {
+			mu, ok := i.(*ssa.MapUpdate)
+			if !ok {
+				return
+			}
+			if mt, ok := mu.Map.Type().Underlying().(*types.Map); !ok || !hasMethod(mt.Elem(), "Cancel") {
+				return
+			}
+			r.Check(freshFrom(mu.Value, 0), "C06.R5", "per-name mocker in "+shortName(f)+" is built for this name", p.Pos(posOf(mu)), "value filed in the cache comes from a constructor call of this lookup",
+				"the mocker filed under a method name is derived from the shared mocker of the type instead of a fresh one: mockers of different methods share their state (guard, stub, cancelled flag), so mocking a second method redirects or cancels the first")
 		})
 	}
 	// ---- R3 exact-name resolution for exported methods
@@ -318,6 +373,7 @@ func c06(c *Ctx) {
 		r.Check(fmts[spec.fn+"|"+spec.want], "C06.R4", "symbol name format in "+spec.fn, "", "format "+spec.want,
 			"the linker symbol name of an unexported method is not built as pkg.(*T).m / pkg.T.m / pkg.f: another symbol (or none) is looked up")
 	}
+	checkExactNameDerivation(p, r, "C06.R4")
 	// parenthesisation iff pointer receiver: the "(%s)" Sprintf is guarded by strings.Contains(name, "*")
 	for _, fn := range []*ssa.Function{p.Meth("", "MethodMocker", "ExportMethod"), p.Meth("", "Builder", "ExportStruct")} {
 		if fn == nil {
@@ -380,4 +436,67 @@ func kindOf(i ssa.Instruction) string {
 		return "store"
 	}
 	return "?"
+}
+
+// checkExactNameDerivation (C06.R4, shared with C01.R4): a name that is handed to a by-name symbol lookup is derived from
+// what the user designated by exact operations only (formatting, exact suffix/prefix removal). Character-set trimming,
+// case folding and replacement turn the designated name into that of a sibling symbol.
+func checkExactNameDerivation(p *Prog, r *Report, rule string) {
+	inexact := map[string]bool{"strings.Trim": true, "strings.TrimLeft": true, "strings.TrimRight": true, "strings.TrimFunc": true,
+		"strings.TrimLeftFunc": true, "strings.TrimRightFunc": true, "strings.ToLower": true, "strings.ToUpper": true, "strings.Title": true,
+		"strings.Replace": true, "strings.ReplaceAll": true, "strings.Map": true, "strings.ToTitle": true, "strings.Fields": true}
+	sinks := []string{qual("internal/unexports2", "FindFuncByName"), qual("internal/unexports2", "FindVarByName"), qual("internal/proxy", "FuncName")}
+	n := 0
+	for _, f := range p.FuncsIn("") {
+		for _, cs := range callsTo(f, sinks...) {
+			args := callCommon(cs).Args
+			if len(args) == 0 {
+				continue
+			}
+			for _, ls := range p.liftSites(liftedSite{f, cs, []ssa.Value{args[0]}}, 3) {
+				if ls.Vals[0] == nil {
+					continue
+				}
+				n++
+				bad := ""
+				var walk func(v ssa.Value, depth int)
+				seen := map[ssa.Value]bool{}
+				walk = func(v ssa.Value, depth int) {
+					if v == nil || seen[v] || depth > 8 {
+						return
+					}
+					seen[v] = true
+					for _, a := range origins(v) {
+						cl, ok := a.V.(*ssa.Call)
+						if !ok {
+							if ex, isEx := a.V.(*ssa.Extract); isEx {
+								cl, ok = ex.Tuple.(*ssa.Call)
+							}
+						}
+						if !ok || cl == nil {
+							continue
+						}
+						cn := calleeName(cl.Common())
+						if inexact[cn] {
+							bad = cn
+						}
+						if strings.HasPrefix(cn, "strings.") || cn == "fmt.Sprintf" {
+							for _, arg := range cl.Call.Args {
+								walk(arg, depth+1)
+							}
+							for _, arg := range variadicArgValues(cl) {
+								walk(arg, depth+1)
+							}
+						}
+					}
+				}
+				walk(ls.Vals[0], 0)
+				r.Check(bad == "", rule, "symbol name handed to the lookup in "+shortName(ls.Fn)+" is derived exactly", p.Pos(posOf(ls.Instr)), "formatting and exact prefix/suffix removal only",
+					"the name handed to the by-name symbol lookup goes through "+bad+", which is not an exact operation (character-set trimming / folding / replacement): a designated function whose name ends in one of those characters resolves to a sibling symbol or to none")
+			}
+		}
+	}
+	if n == 0 {
+		r.Und(rule, "by-name lookups", "", "no call of a by-name symbol lookup found in the root package")
+	}
 }
